@@ -991,11 +991,12 @@ impl<'m> World<'m> {
                 Ok(ix) => {
                     let got = self.battery_answers(&ix);
                     self.judge("crash-prefix-load", what, &format!("prefix {k}/{upto} ({}): ", if new_side { "new" } else { "old" }), got, &expect);
+                    // `crashload k`: this is the state the case goes on with; the later prefixes are
+                    // still loaded and judged (the flush as a whole is checked either way)
                     if let Some(sk) = stop_at
                         && sk.min(upto) == k
                     {
                         adopt = Some((ix, expect, d.clone(), new_side));
-                        break;
                     }
                 }
                 Err(e) => self.oracle("crash-prefix-load", what, format!("prefix {k}/{upto} loads"), e),
